@@ -1147,8 +1147,15 @@ func (sc *serverConn) handleHeaderFrame(strm *Stream, fr *FrameHeader) error {
 	// fields join the request headers, which is the nearest thing fasthttp's
 	// request has to a place for them.
 	// https://httpwg.org/specs/rfc7540.html#rfc.section.8.1
-	if strm.headersFinished && !fr.Flags().Has(FlagEndStream|FlagEndHeaders) {
+	if strm.headersFinished && !fr.Flags().Has(FlagEndStream) {
 		return NewGoAwayError(ProtocolError, "stream not open")
+	}
+
+	// END_STREAM ends the message, not the header block: a trailer section may
+	// go on in CONTINUATION frames like any other block (RFC 7540 6.2, 8.1).
+	// Until END_HEADERS arrives the stream is in a header block again.
+	if strm.headersFinished && !fr.Flags().Has(FlagEndHeaders) {
+		strm.headersFinished = false
 	}
 
 	if headerFrame, ok := fr.Body().(*Headers); ok && headerFrame.Stream() == strm.ID() {
